@@ -121,6 +121,51 @@ func describe(bin, id string) meta {
 	return m
 }
 
+// crashInCore turns a worker that died of a panic raised in a goroutine of the repository's own
+// code (nothing of the harness on the panicking goroutine's stack above the first repository frame)
+// into a violation of the case the worker had journalled (vcore.Ctx.Journal).
+func crashInCore(wtmp, log string) *vcore.Violation {
+	b, err := os.ReadFile(filepath.Join(wtmp, "current-case.json"))
+	if err != nil {
+		return nil
+	}
+	var j struct {
+		Signature string          `json:"signature"`
+		Case      json.RawMessage `json:"case"`
+	}
+	if json.Unmarshal(b, &j) != nil || j.Signature == "" {
+		return nil
+	}
+	i := strings.Index(log, "\npanic: ")
+	if i < 0 {
+		if !strings.HasPrefix(log, "panic: ") {
+			return nil
+		}
+		i = -1
+	}
+	rest := log[i+1:]
+	first := rest
+	if k := strings.Index(rest, "\n\ngoroutine "); k >= 0 { // message, then the panicking goroutine's block
+		blk := rest[k+2:]
+		if e := strings.Index(blk, "\n\n"); e >= 0 {
+			blk = blk[:e]
+		}
+		first = rest[:k] + "\n" + blk
+	}
+	core, harness := strings.Index(first, "github.com/projecteru2/core/"), strings.Index(first, "verif/harness/")
+	if core < 0 || (harness >= 0 && harness < core) {
+		return nil
+	}
+	msg := strings.SplitN(rest, "\n", 2)[0]
+	frame := first[core:]
+	if e := strings.Index(frame, "\n"); e >= 0 {
+		frame = frame[:e]
+	}
+	var cs any
+	json.Unmarshal(j.Case, &cs)
+	return &vcore.Violation{Signature: j.Signature, Detail: fmt.Sprintf("the process crashed inside the repository's code while this case ran: %s at %s | case=%s", msg, frame, string(j.Case)), Replay: cs}
+}
+
 func main() {
 	if len(os.Args) < 2 {
 		die("usage: check <ID> [--tier quick|thorough] [--replay path] [--shards n] [--budget s]")
@@ -246,6 +291,11 @@ func main() {
 			logs[s] = string(ob)
 			b, rerr := os.ReadFile(out)
 			if rerr != nil {
+				if v := crashInCore(wtmp, logs[s]); v != nil {
+					results[s] = &vcore.Result{Property: id, Violations: []vcore.Violation{*v}, SigCounts: map[string]int64{v.Signature: 1},
+						CapHit: fmt.Sprintf("worker %d crashed inside the repository's code; the rest of its shard was not explored", s)}
+					return
+				}
 				results[s] = &vcore.Result{Property: id, HarnessErr: fmt.Sprintf("worker %d produced no result (%v)", s, werr)}
 				return
 			}
